@@ -922,6 +922,20 @@ def _dict_config(cfg):
         return _REAL["dictConfig"](cfg)
 
 
+_MARKER = []
+
+
+def _round_marker_name():
+    if not _MARKER:
+        try:
+            from jade.hpc.hpc_submitter import HpcSubmitter
+
+            _MARKER.append(str(HpcSubmitter.LOCK_FILENAME))
+        except Exception:
+            _MARKER.append("submitter.lock")
+    return _MARKER[0]
+
+
 def _file_effect(kind, path, **kw):
     """File mutations are effect points (kill / fault injection, fine-grained pre-emption)."""
     w = _W
@@ -933,8 +947,8 @@ def _file_effect(kind, path, **kw):
         return
     if isinstance(path, bytes) or not str(path).startswith(w.root):
         return
-    if str(path).endswith(".lock"):
-        return  # lock markers are reported as lock effects
+    if str(path).endswith(".lock") and os.path.basename(str(path)) != _round_marker_name():
+        return  # filelock markers are reported as lock effects (JADE's own round marker submitter.lock is an ordinary file)
     w.effect(kind, path=str(path), **kw)
 
 
